@@ -14,15 +14,20 @@
     closure of `FragN` under `negate`, and the shape each constructor produces — `fragN_mkXor`,
     `fragN_mkImply`, `fragN_mkXNor`, …).
   * `defaults_kept`, `id_written_iff` — defaults and explicit ids.
+  * `ccXor_items_roundtrip`, `ccAny_items_roundtrip` — the configurator's own rule classes over
+    items, through the configurator's class map (`toAst true`): a defaulted `cc.Xor` / `cc.Any`
+    over items is read back as the same class over the same items with the same default and
+    evaluates identically (built on C14's `evalPt_mkCcXor` / `evalPt_mkCcAny`).
   For All the proofs need the children to stay pairwise distinct after the round trip
   (`DistinctRT`) — exactly what fails on the models of known finding F16f.
-  PARTIAL: evaluation / default priorities / polyhedron of the configurator classes (cc.Any /
-  cc.Xor with defaults, StingyConfigurator) are covered by the correspondence (toJson / toAst +
-  build against the real code) and the oracle only.
+  PARTIAL: nested configurator rules (choices below choices, rules below Imply), the
+  StingyConfigurator node itself, default priorities and the polyhedron are covered by the
+  correspondence (toJson / toAst + build against the real code) and the oracle only.
 -/
 import Puan.Model.Json
 import Puan.Lemmas.Build
 import Puan.Props.C04
+import Puan.Props.C14
 namespace Puan.C16
 open Puan P
 
@@ -1203,6 +1208,214 @@ theorem defaults_kept (i b s v ks) (m : Meta) (hc : m.cls = .ccAny ∨ m.cls = .
       simp [PJ.toAst] at ha
       obtain ⟨as, _, rfl⟩ := ha
       simp only [Ast.build]; rw [hd']; exact dflt_mkCcXor _ _ _
+
+/-! ## A configurator rule over items: `cc.Xor(*items, default=…)` through the configurator's class map -/
+
+theorem leaf_roundtrip_cfg (cfg : Bool) (i : String) (b : Bnd) : PJ.toAst cfg (leafJ i b) = some (.var i b) := by
+  unfold leafJ
+  split
+  · rename_i hb; cases b with | mk lo hi => simp at hb; simp [PJ.toAst, hb.1, hb.2]
+  · simp [PJ.toAst]
+
+theorem toAstL_leafs_cfg (cfg : Bool) : ∀ l : List P, (∀ a ∈ l, a.isLeaf = true) →
+    PJ.toAstL cfg (toJsonL l) = some (l.map varAst)
+  | [], _ => by simp [toJsonL, PJ.toAstL]
+  | .leaf i b :: l, h => by
+      have ih := toAstL_leafs_cfg cfg l (fun a ha => h a (by simp [ha]))
+      have hl : PJ.toAst cfg (leafJ i b) = some (.var i b) := by
+        unfold leafJ
+        split
+        · rename_i hb; cases b with | mk lo hi => simp at hb; simp [PJ.toAst, hb.1, hb.2]
+        · simp [PJ.toAst]
+      simp [toJsonL, toJson, PJ.toAstL, hl, ih, varAst, P.id, P.bnd]
+  | .node i b s v ks m :: l, h => by have := h (.node i b s v ks m) (by simp); simp [isLeaf] at this
+
+/-- **a defaulted `cc.Xor` over items survives the round trip through the configurator's class map**: it is read back as a
+    `cc.Xor` over the same items with the same default, and evaluates identically (items' values not negative) -/
+theorem ccXor_items_roundtrip (args : List (Bool × P)) (d : String × Bnd) (ds : List (String × Bnd)) (oid)
+    (hleaf : ∀ k ∈ args.map (·.2), k.isLeaf = true) :
+    ∃ a, PJ.toAst true (toJson (mkCcXor args (d :: ds) oid)) = some a ∧ a.build.mt.dflt = d :: ds ∧
+      ∀ σ, (∀ k ∈ args.map (·.2), 0 ≤ evalPt σ k) → evalPt σ a.build = evalPt σ (mkCcXor args (d :: ds) oid) := by
+  have hX : ∀ k ∈ sortById (orderArgs args), k.isLeaf = true := fun k hk =>
+    hleaf k ((C04.orderArgs_perm args).mem_iff.1 ((sortById_perm _).mem_iff.1 hk))
+  obtain ⟨i, b, m, hx⟩ := C14.mkXor_node args oid .ccXor
+  have hcls : m.cls = .ccXor := by
+    have h1 : (mkXor args oid .ccXor).mt.cls = .ccXor := by
+      unfold mkXor mkAll mkAtLeast; cases varOf oid <;> rfl
+    rw [hx] at h1; simpa [P.mt] using h1
+  have hMe : mkAtMost 1 (orderArgs args) none =
+      .node (genId (sortById (orderArgs args)) (-1) (some (-1))) ⟨0, 1⟩ (-1) (-1) (sortById (orderArgs args)) { cls := .atMost, gen := true } := by
+    simp [mkAtMost, mkAtLeast]
+  have hLe : mkAtLeast 1 (orderArgs args) none none =
+      .node (genId (sortById (orderArgs args)) 1 none) ⟨0, 1⟩ 1 1 (sortById (orderArgs args)) { cls := .atLeast, gen := true } := by
+    simp [mkAtLeast]
+  -- the JSON lists the children of the "at most one" half: the items
+  have hjson : toJson (mkCcXor args (d :: ds) oid) =
+      .node (some "Xor") (idJ i { m with dflt := d :: ds }) none none true (toJsonL (sortById (orderArgs args))) none none none (d :: ds) := by
+    unfold mkCcXor
+    rw [hx]
+    simp only [setDflt]
+    have hperm := sortById_perm [mkAtLeast 1 (orderArgs args) none none, mkAtMost 1 (orderArgs args) none]
+    obtain ⟨ci, cb, cs, cv, cks, cm, hce, hcc⟩ := C14.mkCcAny_node_cls (((sortById (orderArgs args)).map (fun c => ((false : Bool), c))))
+      (d :: ds) (some (genId (sortById (orderArgs args)) 1 none))
+    rcases perm_pair hperm with h | h
+    · rw [h, hLe, hMe]
+      simp only [replaceFirst, isLeaf, Bool.not_false, Bool.true_and, BEq.rfl, if_true, P.kids, P.id]
+      rw [hce]
+      simp [toJson, hcls, kidsOfAtMost, hcc]
+    · rw [h, hLe, hMe]
+      simp [replaceFirst, isLeaf, toJson, hcls, kidsOfAtMost]
+  refine ⟨.ccXor ((sortById (orderArgs args)).map varAst) (d :: ds) (idJ i { m with dflt := d :: ds }), ?_, ?_, ?_⟩
+  · rw [hjson]; simp [PJ.toAst, toAstL_leafs_cfg true _ hX]
+  · simp only [Ast.build]; exact dflt_mkCcXor _ _ _
+  · intro σ hnn
+    have hb := buildL_vars (sortById (orderArgs args)) hX
+    have hnn' : ∀ k ∈ (Ast.buildL ((sortById (orderArgs args)).map varAst)).map (·.2), 0 ≤ evalPt σ k := by
+      rw [hb]; intro k hk
+      exact hnn k ((C04.orderArgs_perm args).mem_iff.1 ((sortById_perm _).mem_iff.1 hk))
+    simp only [Ast.build]
+    rw [C14.evalPt_mkCcXor σ _ _ _ hnn', C14.evalPt_mkCcXor σ _ _ _ hnn, hb, P.sumPt_sort, C04.sum_orderArgs]
+
+theorem toAstL_append_cfg (cfg : Bool) : ∀ (xs ys : List PJ) (as bs : List Ast), PJ.toAstL cfg xs = some as →
+    PJ.toAstL cfg ys = some bs → PJ.toAstL cfg (xs ++ ys) = some (as ++ bs)
+  | [], ys, as, bs, h1, h2 => by simp [PJ.toAstL] at h1; subst h1; simpa using h2
+  | x :: xs, ys, as, bs, h1, h2 => by
+      simp only [PJ.toAstL] at h1
+      split at h1
+      · rename_i a as' ha has'
+        cases h1
+        simp [PJ.toAstL, ha, toAstL_append_cfg cfg xs ys as' bs has' h2]
+      · cases h1
+
+theorem filter_len_split {α} (f : α → Bool) : ∀ l : List α, (l.filter f).length + (l.filter (fun x => !f x)).length = l.length
+  | [] => rfl
+  | x :: l => by
+      have ih := filter_len_split f l
+      cases hf : f x <;> simp [List.filter_cons, hf] <;> omega
+
+theorem leaves_not_tagged : ∀ l : List P, (∀ a ∈ l, a.isLeaf = true) → l.any (fun k => k.mt.prio.isSome) = false
+  | [], _ => rfl
+  | .leaf i b :: l, h => by
+      have ih := leaves_not_tagged l (fun a ha => h a (by simp [ha]))
+      simp only [List.any_cons, ih, Bool.or_false]
+      rfl
+  | .node i b s v ks m :: l, h => by have := h (.node i b s v ks m) (by simp); simp [isLeaf] at this
+
+/-- **a defaulted `cc.Any` over items survives the round trip through the configurator's class map** (at most one item
+    carries the default's id — item ids are distinct): read back as a `cc.Any` with the same default that evaluates
+    identically (items' values not negative) -/
+theorem ccAny_items_roundtrip (args : List (Bool × P)) (d : String × Bnd) (ds : List (String × Bnd)) (oid)
+    (hleaf : ∀ k ∈ args.map (·.2), k.isLeaf = true)
+    (hone : (args.filter (fun x => x.2.isLeaf && x.2.id == d.1)).length ≤ 1) :
+    ∃ a, PJ.toAst true (toJson (mkCcAny args (d :: ds) oid)) = some a ∧ a.build.mt.dflt = d :: ds ∧
+      ∀ σ, (∀ k ∈ args.map (·.2), 0 ≤ evalPt σ k) → evalPt σ a.build = evalPt σ (mkCcAny args (d :: ds) oid) := by
+  obtain ⟨d1, d2⟩ := d
+  -- the plain form: all alternatives directly below the node
+  have plain : setDflt (mkAny args oid .ccAny) ((d1, d2) :: ds) = mkCcAny args ((d1, d2) :: ds) oid →
+      ∃ a, PJ.toAst true (toJson (mkCcAny args ((d1, d2) :: ds) oid)) = some a ∧ a.build.mt.dflt = (d1, d2) :: ds ∧
+        ∀ σ, (∀ k ∈ args.map (·.2), 0 ≤ evalPt σ k) → evalPt σ a.build = evalPt σ (mkCcAny args ((d1, d2) :: ds) oid) := by
+    intro he
+    have hX : ∀ k ∈ sortById (orderArgs args), k.isLeaf = true := fun k hk =>
+      hleaf k ((C04.orderArgs_perm args).mem_iff.1 ((sortById_perm _).mem_iff.1 hk))
+    have hj : ∃ jid, toJson (mkCcAny args ((d1, d2) :: ds) oid) =
+        .node (some "Any") jid none none true (toJsonL (sortById (orderArgs args))) none none none ((d1, d2) :: ds) := by
+      rw [← he]
+      unfold mkAny mkAtLeast
+      cases varOf oid with
+      | none => exact ⟨_, by simp [setDflt, toJson, leaves_not_tagged _ hX]; rfl⟩
+      | some x => exact ⟨_, by simp [setDflt, toJson, leaves_not_tagged _ hX]; rfl⟩
+    obtain ⟨jid, hj⟩ := hj
+    refine ⟨.ccAny ((sortById (orderArgs args)).map varAst) ((d1, d2) :: ds) jid, ?_, ?_, ?_⟩
+    · rw [hj]; simp [PJ.toAst, toAstL_leafs_cfg true _ hX]
+    · simp only [Ast.build]; exact dflt_mkCcAny _ _ _
+    · intro σ hnn
+      have hb := buildL_vars (sortById (orderArgs args)) hX
+      have hnn' : ∀ k ∈ (Ast.buildL ((sortById (orderArgs args)).map varAst)).map (·.2), 0 ≤ evalPt σ k := by
+        rw [hb]; intro k hk
+        exact hnn k ((C04.orderArgs_perm args).mem_iff.1 ((sortById_perm _).mem_iff.1 hk))
+      simp only [Ast.build]
+      rw [C14.evalPt_mkCcAny σ _ _ _ hnn', C14.evalPt_mkCcAny σ _ _ _ hnn, hb, P.sumPt_sort, C04.sum_orderArgs]
+  by_cases h1 : args.length ≤ 1
+  · exact plain (by simp [mkCcAny, h1])
+  · by_cases h2 : ((args.filter (fun x => !(x.2.isLeaf && x.2.id == d1))).length == args.length ||
+        (args.filter (fun x => !(x.2.isLeaf && x.2.id == d1))).length == 0) = true
+    · exact plain (by simp only [mkCcAny, h1, if_false]; rw [if_pos h2])
+    · -- the restructured form: the default item next to the tagged helper over the other items
+      have hlen := filter_len_split (fun x : Bool × P => x.2.isLeaf && x.2.id == d1) args
+      have hc : (args.filter (fun x => !(x.2.isLeaf && x.2.id == d1))).length ≠ args.length ∧
+          (args.filter (fun x => !(x.2.isLeaf && x.2.id == d1))).length ≠ 0 := by
+        simp only [Bool.or_eq_true, beq_iff_eq, not_or] at h2; exact h2
+      have hd1 : (args.filter (fun x => x.2.isLeaf && x.2.id == d1)).length = 1 := by
+        have := hone; simp only at this; omega
+      obtain ⟨x, hdx⟩ : ∃ x, args.filter (fun x => x.2.isLeaf && x.2.id == d1) = [x] := List.length_eq_one_iff.1 hd1
+      have hxmem : x ∈ args := (List.mem_filter.1 (by rw [hdx]; simp : x ∈ args.filter (fun x => x.2.isLeaf && x.2.id == d1))).1
+      have hxleaf : x.2.isLeaf = true := hleaf _ (List.mem_map.2 ⟨x, hxmem, rfl⟩)
+      have hC : ∀ k ∈ sortById (orderArgs (args.filter (fun x => !(x.2.isLeaf && x.2.id == d1)))), k.isLeaf = true := fun k hk => by
+        have h1 := (C04.orderArgs_perm _).mem_iff.1 ((sortById_perm _).mem_iff.1 hk)
+        obtain ⟨y, hy, rfl⟩ := List.mem_map.1 h1
+        exact hleaf _ (List.mem_map.2 ⟨y, (List.mem_filter.1 hy).1, rfl⟩)
+      -- the helper node
+      have hinner : setPrio (mkAny (args.filter (fun x => !(x.2.isLeaf && x.2.id == d1))) none) (-2) =
+          .node (genId (sortById (orderArgs (args.filter (fun x => !(x.2.isLeaf && x.2.id == d1))))) 1 none) ⟨0, 1⟩ 1 1
+            (sortById (orderArgs (args.filter (fun x => !(x.2.isLeaf && x.2.id == d1))))) { cls := .any, gen := true, prio := some (-2) } := by
+        simp [mkAny, mkAtLeast, setPrio, varOf]
+      have hform : mkCcAny args ((d1, d2) :: ds) oid =
+          setDflt (mkAny ([x] ++ [(false, setPrio (mkAny (args.filter (fun x => !(x.2.isLeaf && x.2.id == d1))) none) (-2))]) oid .ccAny)
+            ((d1, d2) :: ds) := by
+        simp only [mkCcAny, h1, if_false]
+        rw [if_neg h2, hdx]
+      obtain ⟨xf, xp⟩ := x
+      have hxp : xp.isLeaf = true := hxleaf
+      generalize hcm : args.filter (fun x => !(x.2.isLeaf && x.2.id == d1)) = compl at *
+      have hj : ∃ jid, toJson (mkCcAny args ((d1, d2) :: ds) oid) =
+          .node (some "Any") jid none none true (leafJ xp.id xp.bnd :: toJsonL (sortById (orderArgs compl))) none none none ((d1, d2) :: ds) := by
+        rw [hform, hinner]
+        have ho : ∃ l, (l = [xp, P.node (genId (sortById (orderArgs compl)) 1 none) ⟨0, 1⟩ 1 1 (sortById (orderArgs compl)) { cls := .any, gen := true, prio := some (-2) }] ∨
+            l = [P.node (genId (sortById (orderArgs compl)) 1 none) ⟨0, 1⟩ 1 1 (sortById (orderArgs compl)) { cls := .any, gen := true, prio := some (-2) }, xp]) ∧
+            sortById (orderArgs ([(xf, xp)] ++ [(false, P.node (genId (sortById (orderArgs compl)) 1 none) ⟨0, 1⟩ 1 1 (sortById (orderArgs compl)) { cls := .any, gen := true, prio := some (-2) })])) = l := by
+          refine ⟨_, ?_, rfl⟩
+          have hp := sortById_perm (orderArgs ([(xf, xp)] ++ [(false, P.node (genId (sortById (orderArgs compl)) 1 none) ⟨0, 1⟩ 1 1 (sortById (orderArgs compl)) { cls := .any, gen := true, prio := some (-2) })]))
+          have hq := C04.orderArgs_perm ([(xf, xp)] ++ [(false, P.node (genId (sortById (orderArgs compl)) 1 none) ⟨0, 1⟩ 1 1 (sortById (orderArgs compl)) { cls := .any, gen := true, prio := some (-2) })])
+          exact perm_pair (hp.trans (by simpa using hq))
+        obtain ⟨l, hl, hle⟩ := ho
+        cases xp with
+        | node => simp [isLeaf] at hxp
+        | leaf xi xb =>
+          unfold mkAny mkAtLeast
+          rw [hle]
+          rcases hl with rfl | rfl
+          · cases varOf oid <;> exact ⟨_, by simp [setDflt, toJson, ccAnyProps, P.mt, toJsonL, P.id, P.bnd]; rfl⟩
+          · cases varOf oid <;> exact ⟨_, by simp [setDflt, toJson, ccAnyProps, P.mt, toJsonL, P.id, P.bnd]; rfl⟩
+      obtain ⟨jid, hj⟩ := hj
+      refine ⟨.ccAny (varAst xp :: (sortById (orderArgs compl)).map varAst) ((d1, d2) :: ds) jid, ?_, ?_, ?_⟩
+      · rw [hj]
+        have hlx : PJ.toAst true (leafJ xp.id xp.bnd) = some (varAst xp) := by
+          cases xp with
+          | node => simp [isLeaf] at hxp
+          | leaf xi xb => simpa [varAst, P.id, P.bnd] using leaf_roundtrip_cfg true xi xb
+        simp [PJ.toAst, PJ.toAstL, hlx, toAstL_leafs_cfg true _ hC]
+      · simp only [Ast.build]; exact dflt_mkCcAny _ _ _
+      · intro σ hnn
+        have hb := buildL_vars (xp :: sortById (orderArgs compl)) (by
+          intro a ha; rcases List.mem_cons.1 ha with rfl | ha
+          · exact hxp
+          · exact hC a ha)
+        have hb' : (Ast.buildL (varAst xp :: (sortById (orderArgs compl)).map varAst)).map (·.2) = xp :: sortById (orderArgs compl) := by
+          simpa using hb
+        have hsplit := C14.sum_filter_split σ (fun x : Bool × P => x.2.isLeaf && x.2.id == d1) args
+        rw [hdx, hcm] at hsplit
+        have hnn' : ∀ k ∈ (Ast.buildL (varAst xp :: (sortById (orderArgs compl)).map varAst)).map (·.2), 0 ≤ evalPt σ k := by
+          rw [hb']; intro k hk
+          rcases List.mem_cons.1 hk with rfl | hk
+          · exact hnn _ (List.mem_map.2 ⟨(xf, k), hxmem, rfl⟩)
+          · have h1 := (C04.orderArgs_perm _).mem_iff.1 ((sortById_perm _).mem_iff.1 hk)
+            obtain ⟨y, hy, rfl⟩ := List.mem_map.1 h1
+            rw [← hcm] at hy
+            exact hnn _ (List.mem_map.2 ⟨y, (List.mem_filter.1 hy).1, rfl⟩)
+        simp only [Ast.build]
+        rw [C14.evalPt_mkCcAny σ _ _ _ hnn', C14.evalPt_mkCcAny σ _ _ _ hnn, hb', hsplit]
+        simp only [sumPt, List.map_cons, List.map_nil, P.sumPt_sort, C04.sum_orderArgs]
+        split <;> split <;> omega
 
 /-- non-vacuity / regression witness of F16a: value 0 with an explicit + sign keeps its meaning -/
 example :
